@@ -20,6 +20,65 @@ type fsmReturn struct {
 	Ret    *ast.ReturnStmt
 	To     string // target state type name, "" if delegated to another method of the same state type
 	Deleg  *core.Fn
+	Helper *core.Fn // shared helper (not a method of a state type) the return delegates to; To is one of its targets
+}
+
+// helperTargets resolves the states a shared helper returning (state, string) can return; ok=false when a return of
+// the helper is neither a constructor call nor a further delegation.
+func helperTargets(p *core.Prog, g *core.Fn, ctors map[*types.Func]string, depth int) (tos []string, ok bool) {
+	if g == nil || g.Decl.Body == nil || depth > 4 {
+		return nil, false
+	}
+	ok = true
+	seen := map[string]bool{}
+	core.InspectNoLit(g.Decl.Body, func(n ast.Node) bool {
+		ret, isRet := n.(*ast.ReturnStmt)
+		if !isRet {
+			return true
+		}
+		if len(ret.Results) == 0 {
+			ok = false
+			return true
+		}
+		call, isCall := core.Unparen(ret.Results[0]).(*ast.CallExpr)
+		if !isCall {
+			ok = false
+			return true
+		}
+		if to, isCtor := ctors[core.Callee(g.Pkg, call)]; isCtor && len(ret.Results) == 2 {
+			if !seen[to] {
+				seen[to] = true
+				tos = append(tos, to)
+			}
+			return true
+		}
+		if h := p.FnOf(core.Callee(g.Pkg, call)); h != nil && len(ret.Results) == 1 && returnsState(h) {
+			sub, subOK := helperTargets(p, h, ctors, depth+1)
+			if !subOK {
+				ok = false
+			}
+			for _, to := range sub {
+				if !seen[to] {
+					seen[to] = true
+					tos = append(tos, to)
+				}
+			}
+			return true
+		}
+		ok = false
+		return true
+	})
+	sort.Strings(tos)
+	return tos, ok && len(tos) > 0
+}
+
+func isStateType(name string) bool {
+	for _, s := range fsmStates {
+		if s == name {
+			return true
+		}
+	}
+	return false
 }
 
 // stateCtor maps constructor functions newXState to X.
@@ -77,6 +136,18 @@ func fsmReturns(c *core.Ctx) []fsmReturn {
 							r.Deleg = g
 							out = append(out, r)
 							return true
+						}
+						// shared helper (e.g. a method of FSM) returning (state, string): one edge per state it can return
+						if g := p.FnOf(core.Callee(m.Pkg, call)); g != nil && !isStateType(core.RecvName(g.Obj)) && returnsState(g) {
+							if tos, ok := helperTargets(p, g, ctors, 0); ok {
+								c.Analysed(g)
+								for _, to := range tos {
+									rr := r
+									rr.Helper, rr.To = g, to
+									out = append(out, rr)
+								}
+								return true
+							}
 						}
 					}
 					c.Undecided("fsm-extraction", m.Name()+" single-value return", ret.Pos(), "return of a state is neither a constructor call nor a delegation to a method of the same state type")
